@@ -8,30 +8,24 @@
 (* of the universe on the real code and CodecLaws.tla judges the result.   *)
 (***************************************************************************)
 EXTENDS CodecUniv, Json, IOUtils, SequencesExt
-USeq == SetToSeq(ValU(0))
-N == Len(USeq)
 Bad(v, form) == ~RoundTrip(v, form)
 Minimal(v, form) == Bad(v, form) /\ \A i \in 1..Len(v.xs) : ~Bad(v.xs[i], form)
-\* one row per value, each evaluated once.  (Only DATA is defined without parameters: TLC evaluates such
-\* definitions once at start-up, in order; formulas over the data take a dummy argument so that they are not
-\* evaluated before the data they refer to has been cached.)
-Rows == [i \in 1..N |-> LET v == USeq[i] IN
-          [v |-> v, bobj |-> Bad(v, "obj"), bstr |-> Bad(v, "str"),
-           cobj |-> ClassOf(v, "obj"), cstr |-> ClassOf(v, "str"),
-           mobj |-> IF Minimal(v, "obj") THEN (IF SelfCollides(v, "obj") THEN SelfClass(v, "obj") ELSE "unexplained") ELSE "no",
-           mstr |-> IF Minimal(v, "str") THEN (IF SelfCollides(v, "str") THEN SelfClass(v, "str") ELSE "unexplained") ELSE "no"]]
+MinClass(v, form) == IF Minimal(v, form) THEN (IF SelfCollides(v, form) THEN SelfClass(v, form) ELSE "unexplained") ELSE "no"
+\* one row per value, each evaluated once (a set: TLC re-evaluates SetToSeq(...) on every indexed access)
+RowSet == {[v |-> v, bobj |-> Bad(v, "obj"), bstr |-> Bad(v, "str"),
+            cobj |-> ClassOf(v, "obj"), cstr |-> ClassOf(v, "str"),
+            mobj |-> MinClass(v, "obj"), mstr |-> MinClass(v, "str")] : v \in ValU(0)}
 \* every failure is explained by a collision class of some part of the value, and only those fail
-Explained(u) == \A i \in 1..N : /\ Rows[i].bobj <=> (Rows[i].cobj # "plain")
-                             /\ Rows[i].bstr <=> (Rows[i].cstr # "plain")
-MinimalAreSelf(u) == \A i \in 1..N : Rows[i].mobj # "unexplained" /\ Rows[i].mstr # "unexplained"
+Explained(u) == \A r \in RowSet : (r.bobj <=> (r.cobj # "plain")) /\ (r.bstr <=> (r.cstr # "plain"))
+MinimalAreSelf(u) == \A r \in RowSet : r.mobj # "unexplained" /\ r.mstr # "unexplained"
 Classes == {"marker_first_list", "empty_tuple", "type_str_key", "int_prefix_str_key"}
-ASSUME PrintT(<<"model", "values", N>>)
-ASSUME \A c \in Classes : PrintT(<<"design", c, "obj", Cardinality({i \in 1..N : Rows[i].mobj = c}),
-                                   "str", Cardinality({i \in 1..N : Rows[i].mstr = c})>>)
+ASSUME PrintT(<<"model", "values", Cardinality(RowSet)>>)
+ASSUME \A c \in Classes : PrintT(<<"design", c, "obj", Cardinality({r \in RowSet : r.mobj = c}),
+                                   "str", Cardinality({r \in RowSet : r.mstr = c})>>)
 ASSUME PrintT(<<"model", "Explained", Explained(0)>>)
 ASSUME PrintT(<<"model", "MinimalAreSelf", MinimalAreSelf(0)>>)
 ASSUME Explained(0) /\ MinimalAreSelf(0)
-ASSUME JsonSerialize(IOEnv.OUT_FILE, [vals |-> [i \in 1..N |-> [v |-> Rows[i].v, cobj |-> Rows[i].cobj, cstr |-> Rows[i].cstr]]])
+ASSUME JsonSerialize(IOEnv.OUT_FILE, [vals |-> SetToSeq({[v |-> r.v, cobj |-> r.cobj, cstr |-> r.cstr] : r \in RowSet})])
 VARIABLE x
 Init == x = 0
 Next == UNCHANGED x
